@@ -105,3 +105,77 @@ func (tb *taskBuild) storesTo(field string) []*ssa.Store {
 	}
 	return out
 }
+
+// taskCopier is a function that builds a task.Task by copying fields of
+// another task.Task one by one (a Clone): at least three stores X.F = Y.F
+// with X a task the function allocated (or got from a constructor helper) and
+// Y another task.
+type taskCopier struct {
+	fn     *ssa.Function
+	copied map[string]bool // fields copied from the source
+}
+
+func taskCopiers(p *an.Prog) []taskCopier {
+	var out []taskCopier
+	for _, fn := range p.Funcs {
+		if fn.Parent() != nil {
+			continue
+		}
+		copied := map[string]bool{}
+		an.EachInstr(fn, func(in ssa.Instruction) {
+			st, ok := in.(*ssa.Store)
+			if !ok {
+				return
+			}
+			fa, ok := st.Addr.(*ssa.FieldAddr)
+			if !ok || !an.TypeIs(fa.X.Type(), "pkg/task", "Task") {
+				return
+			}
+			fresh, _ := an.FreshBase(fa.X)
+			if !fresh {
+				if call, _, _ := an.ConstructorCall(fa.X); call == nil {
+					return
+				}
+			}
+			field := strings.TrimPrefix(an.TypeField(fa), "Task.")
+			// the value: a load of the same field of another task (possibly converted / re-sliced / deep-copied by a helper)
+			var fromField func(v ssa.Value, depth int) bool
+			fromField = func(v ssa.Value, depth int) bool {
+				if depth == 0 {
+					return false
+				}
+				for _, src := range p.DeepSources(v, 2, false) {
+					switch x := src.(type) {
+					case *ssa.UnOp:
+						if sfa, ok := x.X.(*ssa.FieldAddr); ok && an.TypeIs(sfa.X.Type(), "pkg/task", "Task") && !an.SameValue(sfa.X, fa.X) {
+							if strings.TrimPrefix(an.TypeField(sfa), "Task.") == field {
+								return true
+							}
+						}
+						// *(y.F): the pointed-to value of the source's field
+						if fromField(x.X, depth-1) {
+							return true
+						}
+					case *ssa.Alloc:
+						// a private copy of what the source's field points to
+						if refs := x.Referrers(); refs != nil {
+							for _, r := range *refs {
+								if st2, ok := r.(*ssa.Store); ok && st2.Addr == ssa.Value(x) && fromField(st2.Val, depth-1) {
+									return true
+								}
+							}
+						}
+					}
+				}
+				return false
+			}
+			if fromField(st.Val, 3) {
+				copied[field] = true
+			}
+		})
+		if len(copied) >= 3 {
+			out = append(out, taskCopier{fn, copied})
+		}
+	}
+	return out
+}
